@@ -6,6 +6,20 @@ def key_fn(case, obs, verdict):
     f = case.split(" ")
     if f[0] == "grpc":
         return "grpc-code-%s" % f[1]
+    if f[0] == "http":
+        # gun + fault + what is wrong: number of samples Shoot reported, or the codes/tags of the one sample
+        own = obs.split(" ")[0]
+        want_own = "own=0" if f[2].startswith("hookfail") else "own=1"
+        what = ("samples-%s" % own.replace("=", "-")) if own != want_own else "sample-fields"
+        if "net code" in verdict or "saw no error" in verdict:
+            what = "net-code"
+        return "shoot:%s-gun:%s:%s" % ({"h": "http", "c": "connect"}.get(f[1], f[1]), f[2], what)
+    if f[0] in ("hscen", "gscen", "gshoot"):
+        n_obs = obs.split(" ")[0]
+        n_want = verdict.replace("BAD:expected ", "").split(" ")[0]
+        kinds = ",".join(sorted({st.split(":")[-1].rstrip("0123456789") for st in f[2].split(",")})) if len(f) > 2 else ""
+        what = ("count-%s-want-%s" % (n_obs, n_want)) if n_obs != n_want else "sample-fields"
+        return "%s:%s:%s" % (f[0], kinds, what)
     return "%s:%s" % (f[0], verdict.split(" ")[0])
 
 
@@ -13,15 +27,22 @@ def run(ctx):
     common.standard(
         ctx, harness="hC10", extracted="C10_model", driver_dir="C10",
         rule=("non-trivial: every grpc code case; shoot cases with auto-tag enabled and a path of >=2 bytes; "
-              "errno cases with at least one wrapper; ids cases with >=2 goroutines and >=2 ids; distinct = distinct case lines"),
+              "errno cases with at least one wrapper; ids cases with >=2 goroutines and >=2 ids; http cases through the connect gun, "
+              "with a fault or invalid ammo, or with auto-tag on a path of >=2 bytes; scenario cases with >=2 steps; every gshoot case; "
+              "distinct = distinct case lines"),
         key_fn=key_fn,
         translators=[("grpcstatus", "GrpcStatusGen.v"), ("consts", "ConstGen.v")],
         bridge_files=["Gen/GrpcStatus_bridge.v", "Gen/Const_bridge.v"],
         trusted=[
             "translator harness/cmd/translate (grpcstatus: go/ast over ConvertGrpcStatus + markdown table; consts: values compiled from /repo)",
             "extraction: ExtrOcamlBasic only; OCaml driver ocaml/C10/main.ml + ocaml/common/conv.ml (zarith for decimal I/O)",
-            "correspondence harness harness/cmd/hC10 (real ConvertGrpcStatus, BaseGun.Shoot with scripted client, Sample.SetErr, ProviderBase.NextID)",
-            "modelled, not verified: which Go error values the network stack produces; errors.Cause/Underlying unwrapping is modelled by the EWrap constructor",
+            "correspondence harness harness/cmd/hC10 (real ConvertGrpcStatus, BaseGun.Shoot with scripted client, Sample.SetErr, ProviderBase.NextID; "
+            "guns.go: real NewHTTP1Gun / NewConnectGun / http_scenario gun / grpc gun / grpc scenario gun against the in-process raw-TCP target+CONNECT proxy "
+            "and gRPC target of harness/internal/a18, every status 200-599, refused / reset / stalled / truncated / reset-mid-body exchanges)",
+            "modelled, not verified: which Go error values the network stack produces for a fault (the harness records the shape of the error value the gun got "
+            "and the model's get_errno is applied to it); the errno Linux yields per fault (refused 111, stall 110, reset 104, short body / refused CONNECT 999) is a table in the OCaml driver; "
+            "errors.Cause/Underlying unwrapping is modelled by the EWrap constructor",
         ],
-        assumptions=["status.Convert/codes of grpc-go behave as documented", "sync/atomic Add is linearizable (ids)"],
+        assumptions=["status.Convert/codes of grpc-go behave as documented", "sync/atomic Add is linearizable (ids)",
+                     "no gun constructor of pandora sets BaseGun.Connect; a custom Connect hook reports its own failure (its documented contract)"],
     )
